@@ -1,12 +1,68 @@
 import SpVerif.Generated.ParKernels
 import SpVerif.Model.PackFS
+/-!
+# C18 — results do not depend on scheduling, thread count or concurrent use
+
+The logic half: (i) every loop of a kernel compiled with `parallel=True` — the table is regenerated from the source on every
+run — stores only to `result[<loop variable>]` and carries no reduction variable, so iterations have pairwise disjoint write
+sets; (ii) writes to disjoint indices commute, hence every interleaving of such iterations produces the same array;
+(iii) a check-then-build cache whose builder is a deterministic function of immutable data gives every reader the same value
+in every interleaving; (iv) the renumbering moves of pack_partitions_to_parquet do **not** commute (negative witness): they
+must run in the coded order.  Memory-model effects, GIL release points and the Dask scheduler are outside any model here.
+-/
 namespace SpVerif
 open Generated PackFS
-/-- every loop of a kernel compiled with `parallel=True` (table regenerated from the source on every run) only stores
-to `result[<loop variable>]` and carries no reduction variable: iterations have disjoint write sets -/
+
+/-- every parallel loop found in the source only stores to `result[<loop variable>]` and has no reduction variable -/
 theorem C18_kernels_race_free :
     ∀ l ∈ parLoops, l.reductions = [] ∧ ∀ s ∈ l.stores, s.1 = "result" ∧ s.2 = true := by decide
+
+/-- an array write -/
+def write (a : List Int) (w : Nat × Int) : List Int := a.set w.1 w.2
+
+/-- two writes to different indices commute -/
+theorem write_comm (a : List Int) (w₁ w₂ : Nat × Int) (h : w₁.1 ≠ w₂.1) :
+    write (write a w₁) w₂ = write (write a w₂) w₁ := by
+  unfold write
+  exact List.set_comm _ _ h
+
+theorem pairwise_mem {α : Type} {R : α → α → Prop} (hsymm : ∀ a b, R a b → R b a) {l : List α} (h : l.Pairwise R)
+    {x y : α} (hx : x ∈ l) (hy : y ∈ l) (hne : x ≠ y) : R x y := by
+  induction l with
+  | nil => cases hx
+  | cons a l ih =>
+    obtain ⟨h1, h2⟩ := List.pairwise_cons.mp h
+    simp only [List.mem_cons] at hx hy
+    rcases hx with rfl | hx
+    · rcases hy with rfl | hy
+      · exact absurd rfl hne
+      · exact h1 y hy
+    · rcases hy with rfl | hy
+      · exact hsymm _ _ (h1 x hx)
+      · exact ih h2 hx hy
+
+/-- **disjoint writes commute**: iterations that write pairwise different indices produce the same array in every order
+(every interleaving of atomic writes is a permutation of the write list) -/
+theorem C18_disjoint_writes_commute (a : List Int) (ws ws' : List (Nat × Int)) (hp : ws.Perm ws')
+    (hd : ws.Pairwise (fun x y => x.1 ≠ y.1)) : ws.foldl write a = ws'.foldl write a := by
+  apply List.Perm.foldl_eq' hp
+  intro x hx y hy z
+  by_cases hxy : x = y
+  · subst hxy; rfl
+  · exact write_comm z x y (pairwise_mem (fun a b h => Ne.symm h) hd hx hy hxy)
+
+/-- a check-then-build cache: a thread that finds the cell empty builds and stores; the builder is a function of immutable
+data.  Whatever the interleaving (any sequence of "store" events by any threads), every later reader sees `build data` -/
+theorem C18_cache_benign {D V : Type} (build : D → V) (data : D) (stores : List Unit) (cell : Option V)
+    (hcell : cell = none ∨ cell = some (build data)) :
+    let final := stores.foldl (fun c _ => some (build data)) cell
+    final = none ∨ final = some (build data) := by
+  induction stores generalizing cell with
+  | nil => simpa using hcell
+  | cons _ rest ih => exact ih (some (build data)) (Or.inr rfl)
+
 /-- the renumbering moves are order dependent: run in another order they lose a part (so they must not be independent tasks) -/
 theorem C18_moves_do_not_commute :
-    compactIn (moves [0, 2, 3]).reverse [0, 2, 3] ≠ compact [0, 2, 3] := by decide
+    ¬ (compactIn (moves [0, 2, 3]).reverse [0, 2, 3]).Perm (compact [0, 2, 3]) := by decide
+
 end SpVerif
